@@ -215,10 +215,36 @@ func (e *Exec) sprintf(format StrV, args SliceV) StrV {
 				}
 				continue
 			}
+			if x.opq == nil && symByteCount(x) <= 3 {
+				// other verbs (%q, padded %s): enumerate the few symbolic bytes and format natively
+				cs := e.concretizeStr(x)
+				lit(fmt.Sprintf(spec, cs.Concrete()))
+				continue
+			}
 		}
 		parts = append(parts, opaquePart{kind: 3})
 	}
 	lit(f[start:])
+	// only literal text and symbolic byte strings: an ordinary string of concrete length
+	plainOnly := true
+	for _, p := range parts {
+		if p.kind != 0 && p.kind != 2 {
+			plainOnly = false
+		}
+	}
+	if plainOnly {
+		var bs []*Term
+		for _, p := range parts {
+			if p.kind == 0 {
+				for k := 0; k < len(p.lit); k++ {
+					bs = append(bs, e.byteConst(p.lit[k]))
+				}
+			} else {
+				bs = append(bs, p.sym...)
+			}
+		}
+		return e.mkStr(bs)
+	}
 	return StrV{opq: &opaqueStr{parts: parts}}
 }
 
